@@ -46,6 +46,9 @@ INSTANCES = [
     ('empty', 'material_to_db(m1, overwrite=False, autoinsert_properties=True'),
     ('unrelated', 'material_to_db(m1, overwrite=False, autoinsert_properties=True'),
     ('with-m1', 'material_to_db(m1b, overwrite=True'),
+    ('with-m1', 'material_to_db(m1d, overwrite=True'),
+    ('with-m1', 'material_to_db(m1c, overwrite=True'),
+    ('with-a1', 'adsorbate_to_db(a1d, overwrite=True'),
     ('with-m1', 'material_delete_db(m1 object)'),
     ('types-of-a1', 'adsorbate_to_db(a1, overwrite=False, autoinsert_properties=False'),
     ('empty', 'adsorbate_property_type_to_db(t1)'),
